@@ -4,19 +4,21 @@
    reference semantics Rfc6902.rfc_apply, for ALL documents and ALL operation sequences in the
    property's stated domain, with SupportNegativeIndices on or off.  The model is tied to the Go
    code by the correspondence run (see evidence). *)
-From JP Require Import Bytes Json Text Strings Den Pointer Rfc6902 ImplV5 Domain JsonFacts Abs EqualFacts ImplFacts RefFacts ApplyFacts ApplySim.
+From JP Require Import Bytes Json Text Strings Den Pointer Rfc6902 ImplV5 Domain JsonFacts Abs EqualFacts ImplFacts RefFacts ApplyFacts Codec StrInv ApplySim PointerDomain.
 
 (* Apply on bytes.  Hypotheses = the property's domain: root object/array without duplicate names
    (tnodup), operations in op_dom (pointers "" or /tok/.../tok with non-empty tokens whose numeric
-   spellings are canonical; "" not the target of remove/copy/move; root not replaced by null;
-   patch values without duplicate names), plain options (the three behavioural options are C12,
-   C13, C14).  For patches that contain a copy the codec round trip of deepCopy is a hypothesis
-   (codec_ok, see DESIGN: open obligation); patches without copy need nothing.
+   spellings are canonical and which are valid UTF-8; "" not the target of remove/copy/move; root
+   not replaced by null; patch values without duplicate names and with string bodies the scanner
+   accepts), plain options (the three behavioural options are C12, C13, C14).  The two string
+   conditions hold of EVERY decoded patch (C01_decoded_strings below): pointers are decoded strings,
+   values are parsed texts.  Patches that contain a copy are covered like all others: the codec
+   round trip of deepCopy is proved (StrInv.codec_thm) from the string invariant carried by ngood.
    Conclusion: Apply succeeds exactly when the reference does; then the output encodes a node
    whose value IS the reference result (so, a fortiori, structurally equal); a failure is reported
    at the same operation index. *)
 Theorem C01_apply_refines_rfc : forall o indent p doc t,
-  (has_copy p -> codec_ok) -> plain_opts o -> parse doc = Some t -> root_container t = true -> tnodup t = true ->
+  plain_opts o -> parse doc = Some t -> root_container t = true -> tnodup t = true ->
   Forall op_dom p ->
   match rfc_apply (dia o) (den t) (map den_op p) with
   | Done j => exists n, api_apply o indent p doc = ROut (output o indent (render (o_esc o) n)) /\ aval n = j /\ ngood n
@@ -25,9 +27,37 @@ Theorem C01_apply_refines_rfc : forall o indent p doc t,
 Proof. exact api_apply_sim. Qed.
 Print Assumptions C01_apply_refines_rfc.
 
+(* the string conditions of op_dom are theorems for decoded patches: every text stored in a decoded
+   operation has scanner-accepted string bodies (so path and from, being decoded strings, are valid
+   UTF-8, and so is every reference token: splitting at '/' and undoing ~0 ~1 keep validity) *)
+Theorem C01_decoded_strings : forall bs p, api_decode bs = Some p ->
+  Forall (fun op => op_tsb op /\
+                    (forall k s, op_str op k = Ok s -> utf8 s) /\
+                    (forall k r, op_str op k = Ok (x2f :: r) -> Forall utf8 (map decode_token (split_slash r)))) p.
+Proof.
+  intros bs p H. apply api_decode_tsb in H. rewrite Forall_forall in *. intros op Hin. specialize (H op Hin).
+  split; [exact H|]. split.
+  - intros k s E. eapply op_tsb_str; eauto.
+  - intros k r E. apply utf8_pointer_tokens. eapply op_tsb_str; eauto.
+Qed.
+Print Assumptions C01_decoded_strings.
+
+(* the same theorem with the domain stated by the boolean predicates the harness evaluates on the
+   decoded patch (Domain.in_domain_C01, plus op_small: canonical numbers fit 64 bits) *)
+Theorem C01_apply_refines_rfc_decoded : forall o indent patch p doc t,
+  plain_opts o ->
+  api_decode patch = Some p -> in_domain_C01 p = true -> forallb op_small p = true ->
+  parse doc = Some t -> root_container t = true -> tnodup t = true ->
+  match rfc_apply (dia o) (den t) (map den_op p) with
+  | Done j => exists n, api_apply o indent p doc = ROut (output o indent (render (o_esc o) n)) /\ aval n = j /\ ngood n
+  | Failed i cz => exists e, api_apply o indent p doc = RErr (Some i) e /\ cause_rel cz e
+  end.
+Proof. exact C01_on_boolean_domain. Qed.
+Print Assumptions C01_apply_refines_rfc_decoded.
+
 (* one operation on any reachable state, whatever lazy parsing earlier operations left behind *)
 Theorem C01_step_refines_rfc : forall o st op,
-  (op_kind op = KCopy -> codec_ok) -> sgood st -> plain_opts o -> op_dom op ->
+  sgood st -> plain_opts o -> op_dom op ->
   match rfc_step (dia o) (sval st) (den_op op) with
   | Rfc6902.Ok j' => exists st', step o st op = Ok st' /\ sval st' = j' /\ sgood st'
   | Rfc6902.Fail cz => exists e, step o st op = Err e /\ cause_rel cz e
@@ -95,3 +125,17 @@ Example C01_nonvacuous :
   | None => False
   end.
 Proof. vm_compute. reflexivity. Qed.
+
+(* the hypotheses are satisfiable for that very patch (copy included): it is in op_dom *)
+Example C01_nonvacuous_dom :
+  match api_decode (B "[{""op"":""add"",""path"":""/a/-"",""value"":null},{""op"":""test"",""path"":""/a/-1"",""value"":null},{""op"":""copy"",""from"":""/a"",""path"":""/x~1y""},{""op"":""move"",""from"":""/a/0"",""path"":""/a/1""},{""op"":""replace"",""path"":""/x~1y/0"",""value"":{""k"":1.0}},{""op"":""remove"",""path"":""/b""},{""op"":""test"",""path"":""/a"",""value"":[2,1,null]}]") with
+  | Some p => Forall op_dom p /\ has_copy p
+  | None => False
+  end.
+Proof.
+  destruct (api_decode _) as [p|] eqn:E; [|vm_compute in E; discriminate E].
+  split.
+  - eapply decoded_in_domain_op_dom; [exact E | |];
+      (pose proof E as E'; vm_compute in E'; inversion E'; subst p; vm_compute; reflexivity).
+  - vm_compute in E. inversion E; subst p. eexists. split; [right; right; left; reflexivity | vm_compute; reflexivity].
+Qed.
